@@ -177,7 +177,8 @@ def step (v : Variant) (s : St) : Lbl → Option St
   | .prx ok => stepPrx v s ok
   | .disp reply => stepDisp s reply
 
-/-- **Overlapping connect** (passive TCP transport; NOT part of `step`): `TcpServerConnection` restarts its listener from an
+/-- **Overlapping connect** (passive TCP transport BEFORE repair 814c548; NOT part of `step`; regression witness only):
+`TcpServerConnection` restarted its listener from an
 `on_disconnected` listener that is registered before the protocol's own one, i.e. while the old connection's thread is still at `discon`
 (…`join`, `clear`, and the reset of its flags).  A peer that connects in that window is accepted by the new server thread, which runs
 `_on_connected` (`connection_state.connect()`, `ProtocolDispatcher.start()`: new receiver thread, stop flag reset) concurrently with the old
